@@ -154,7 +154,7 @@ ChkSend(o, e) ==
         ELSE {})
   \* C12: the responder charges exactly its configured rate
   \cup (IF e.kind \in AgrKinds /\ e.ok /\ Has(e, "premium") /\ Known(o, s) /\ IsInt(r.amount) /\ r.amount <= 2000000
-           /\ e.premium # Compute(r.amount, IF o.cfg.has_peer_rate THEN o.cfg.peer_rate ELSE o.cfg.rate_ppm)
+           /\ e.premium # Compute(r.amount, IF o.cfg.has_peer_rate /\ r.peer = "peer" THEN o.cfg.peer_rate ELSE o.cfg.rate_ppm)
         THEN {"C12|responder-premium|" \o r.role} ELSE {})
   \cup (IF e.kind = "swap_out_agreement" /\ e.ok /\ Has(e, "fee_msat") /\ IsInt(e.fee_msat) /\ e.fee_msat # o.cfg.open_fee_sat * 1000
         THEN {"C12|fee-invoice-amount"} ELSE {})
@@ -216,8 +216,11 @@ ChkRet(o, e) ==
       cancelAny == "cancel" \in sentK
       freshReq == st.a = "msg" /\ st.kind \in ReqKinds /\ st.fresh /\ st.from \in {"peer", "third"} /\ e.res \notin {"down", "skipped"} /\ e.up
       faultFree == ~o.faults /\ ~o.crashes
-      balanceOK == st.kind # "swap_out_request" \/ ~IsInt(o.cfg.wallet_sat) \/ o.cfg.wallet_sat >= 1000000 + o.cfg.open_fee_sat
-      adm == Admit(o, m, chain) /\ ~st.busy /\ st.from = "peer" /\ balanceOK
+      balanceOK == st.kind # "swap_out_request" \/ ~IsInt(o.cfg.wallet_sat) \/ o.cfg.wallet_sat >= AmtSat(m.amt) + o.cfg.open_fee_sat
+      \* the amount fits the channel: the responder of a swap-in pays the claim invoice (spendable), the responder of a swap-out is paid (receivable)
+      fits == (st.kind = "swap_in_request" => ~IsInt(o.cfg.spendable_msat) \/ o.cfg.spendable_msat >= AmtSat(m.amt) * 1000)
+              /\ (st.kind = "swap_out_request" => ~IsInt(o.cfg.receivable_msat) \/ o.cfg.receivable_msat >= AmtSat(m.amt) * 1000)
+      adm == Admit(o, m, chain) /\ ~st.busy /\ st.from = "peer" /\ balanceOK /\ fits
   IN
   (IF freshReq /\ faultFree /\ adm /\ ~agreed /\ m.amt \in {"", "typ"} THEN {"C11|admissible-request-refused|" \o st.kind} ELSE {})
   \cup (IF freshReq /\ ~Admit(o, m, chain) /\ agreed /\ st.from = "peer"
@@ -227,6 +230,7 @@ ChkRet(o, e) ==
                 ELSE IF AmtSat(m.amt) * 1000 < o.cfg.min_swap_msat THEN "amount-" \o m.amt \o "-below-minimum-" \o ToString(o.cfg.min_swap_msat) ELSE IF m.limit \notin {"", "ok", "exact"} THEN "premium-limit-" \o m.limit
                 ELSE IF m.pubkey \notin {"", "good"} THEN "pubkey" ELSE "chain-or-scid")} ELSE {})
   \cup (IF freshReq /\ st.from = "third" /\ agreed /\ ~(o.cfg.accept_all) THEN {"C11|third-party-agreed"} ELSE {})
+  \cup (IF freshReq /\ agreed /\ (~fits \/ ~balanceOK) THEN {"C11|inadmissible-request-agreed|" \o st.kind \o "|" \o (IF ~fits THEN "amount-does-not-fit-channel" ELSE "on-chain-balance")} ELSE {})
   \cup (IF freshReq /\ ~agreed /\ ~cancelWithId /\ faultFree
         THEN {"C11|refused-without-cancel|" \o st.kind \o "|" \o (IF cancelAny THEN "cancel-without-swap-id" ELSE "no-cancel") \o "|"
                 \o (IF m.pubkey \notin {"", "good"} THEN "pubkey" ELSE IF m.asset \notin {"", "own"} THEN "asset-" \o m.asset
